@@ -34,7 +34,26 @@ pub async fn dispatch(ctx: &Ctx, rep: &mut ShardReport) -> bool {
             data::run(ctx, rep).await;
             true
         }
-        "C05" | "C06" | "C10" => {
+        "C06" => {
+            // "no acknowledged command sequence makes ... a later valid command fail" also covers the data commands (send, flush, purge,
+            // partition changes, restarts): the last third of the budget runs data-world histories in which only C06's clauses count
+            let data_witness = ctx.replay.as_ref().and_then(|p| std::fs::read_to_string(p).ok()).map(|t| t.contains("\"topic_cfg\"")).unwrap_or(false);
+            if data_witness {
+                data::run(ctx, rep).await;
+                return true;
+            }
+            let actx = Ctx { check: ctx.check.clone(), tier: ctx.tier.clone(), seed: ctx.seed, shard: ctx.shard, shards: ctx.shards, budget_s: (ctx.budget_s * 2 / 3).max(1), replay: ctx.replay.clone(), start: ctx.start };
+            admin::run(&actx, rep).await;
+            if ctx.replay.is_none() {
+                let required = rep.extra.get("required_events").cloned();
+                data::run(ctx, rep).await;
+                if let Some(r) = required {
+                    rep.extra.insert("required_events".into(), r);
+                }
+            }
+            true
+        }
+        "C05" | "C10" => {
             admin::run(ctx, rep).await;
             true
         }
